@@ -602,3 +602,7 @@ func (core JApiCore) addJsonRpcParams(d *directive.Directive) *jerr.JApiError {
 func (core JApiCore) addJsonRpcResult(d *directive.Directive) *jerr.JApiError {
 	return core.addJsonRpcSchema(d, core.catalog.AddJsonRpcResult)
 }
+
+func (core JApiCore) addTags(d *directive.Directive) *jerr.JApiError {
+	return core.catalog.CheckTags(d)
+}
